@@ -218,6 +218,7 @@ func (o *Observer) readList(n datamodel.Node, path string) Val {
 		return v
 	}
 	var kids []datamodel.Node
+	var early []Val
 	guard(o, "ListIterator.Next", path, func() {
 		for i := int64(0); !it.Done(); i++ {
 			idx, c, err := it.Next()
@@ -229,6 +230,10 @@ func (o *Observer) readList(n datamodel.Node, path string) Val {
 				o.inc("iter-index", "at %q: iterator yielded index %d at position %d", path, idx, i)
 			}
 			kids = append(kids, c)
+			if o.Full {
+				// read right away too: a node handed out by Next reads the same after the iterator moved on
+				early = append(early, (&Observer{}).Read(c, ""))
+			}
 			if i > 1<<20 {
 				o.inc("iterator-unbounded", "at %q", path)
 				return
@@ -237,6 +242,9 @@ func (o *Observer) readList(n datamodel.Node, path string) Val {
 	})
 	for i, c := range kids {
 		v.L = append(v.L, o.Read(c, fmt.Sprintf("%s/%d", path, i)))
+		if i < len(early) && !Equal(early[i], v.L[i]) {
+			o.inc("second-read-differs(value from iterator after Next)", "at %q[%d]: read %s when Next returned it, %s after the iterator moved on", path, i, early[i], v.L[i])
+		}
 	}
 	if !o.Full {
 		return v
@@ -308,6 +316,7 @@ func (o *Observer) readMap(n datamodel.Node, path string) Val {
 	}
 	type kv struct{ k, v datamodel.Node }
 	var kids []kv
+	var early []Val
 	guard(o, "MapIterator.Next", path, func() {
 		for i := 0; !it.Done(); i++ {
 			k, c, err := it.Next()
@@ -316,6 +325,9 @@ func (o *Observer) readMap(n datamodel.Node, path string) Val {
 				return
 			}
 			kids = append(kids, kv{k, c})
+			if o.Full {
+				early = append(early, (&Observer{}).Read(c, ""))
+			}
 			if i > 1<<20 {
 				o.inc("iterator-unbounded", "at %q", path)
 				return
@@ -330,6 +342,9 @@ func (o *Observer) readMap(n datamodel.Node, path string) Val {
 		}
 		seen[ks] = true
 		v.M = append(v.M, Entry{ks, o.Read(e.v, path+"/"+ks)})
+		if i := len(v.M) - 1; i < len(early) && !Equal(early[i], v.M[i].V) {
+			o.inc("second-read-differs(value from iterator after Next)", "at %q key %q: read %s when Next returned it, %s after the iterator moved on", path, ks, early[i], v.M[i].V)
+		}
 	}
 	if !o.Full {
 		return v
